@@ -11,7 +11,7 @@ def ds : DistSem :=
 
 /-- x ~ d0();  y ~ vmap(d1)([x, 5]);  return x -/
 def prog1 : Prog :=
-  .static (.bind ["x"] (.dist 0) [] (.bind ["y"] (.vmap (.dist 1) [true]) [.stack [.var 1, .lit 5]] (.ret (.var 1))))
+  .static (.bind ["x"] (.dist 0) [] (.bind ["y"] (.vmap (.dist 1) [some 0]) [.stack [.var 1, .lit 5]] (.ret (.var 1))))
 
 /-- the trace `simulate` returns for `prog1` on argument 3 under `ds` -/
 def trace1 : Trace :=
